@@ -35,6 +35,13 @@ tie    : T-diff.  Literal blocks, 30 fixed blocks and random update blocks over 
          variables and signal lists have NO Coq constructor: those blocks are counted as unmodelled, but they are still type-checked by
          the real pass, simulated and probed, and the property is evaluated on those observations (key C10:unmodelled:<hash>, or the
          S-family when the failing node is python-int arithmetic (S3) / a folded BinOp of sized constants (S2)).
+         Section "arrays" (all outside the Coq language, evaluated the same way): bitstructs with 1-D / 2-D / 3-D list fields
+         (non-square, sum of dims != product) in whole-struct <-> BitsN assignments (right width, near misses, the width a wrong packing
+         rule would give), struct copies, element / row / scalar-field reads; 2-D / 3-D arrays of InPorts, of Bits constants (attribute /
+         closure) and of ints, homogeneous or with another bitwidth in a non-first row / plane / element, read with constant and signal
+         indices in assignments, arithmetic and comparisons.  The index signals are driven through every combination of values so that
+         every element is reached; an accepted block must never raise a width error (ValueError, or the bitstruct "N-bit <> M-bit"
+         assertion) and every probed sub-expression must have the width the checker gave it.
 """
 from common import *
 from sched_common import load_source
@@ -56,6 +63,22 @@ class Wd:
   y: Bits1
   z: Bits16
 @bitstruct
+class Pix:
+  px: [ [ Bits4 ] * 3 ] * 2
+  k: Bits8
+@bitstruct
+class Vol:
+  t: Bits3
+  v: [ [ [ Bits2 ] * 2 ] * 3 ] * 2
+@bitstruct
+class Row:
+  r: [ Bits4 ] * 3
+  k: Bits2
+@bitstruct
+class Sq:
+  q: [ [ Bits5 ] * 2 ] * 2
+  z: Bits1
+@bitstruct
 class Cfg:
   mask: Bits4
   base: Bits8
@@ -66,6 +89,10 @@ class Cfg2:
 '''
 STRUCTS = {'Pt': [('a', 8), ('b', 4)], 'Outer': [('p', 'Pt'), ('c', 4)], 'Wd': [('x', 33), ('y', 1), ('z', 16)]}
 STRUCT_ID = {'Pt': 0, 'Outer': 1, 'Wd': 2}
+# bitstructs with (multi-dimensional) list fields: ('arr', dims, element width); not in the Coq language
+ARR_STRUCTS = {'Pix': [('px', ('arr', (2, 3), 4)), ('k', 8)], 'Vol': [('t', 3), ('v', ('arr', (2, 3, 2), 2))],
+               'Row': [('r', ('arr', (3,), 4)), ('k', 2)], 'Sq': [('q', ('arr', (2, 2), 5)), ('z', 1)]}
+STRUCTS.update(ARR_STRUCTS)
 CONST_STRUCTS = {'Cfg': [('mask', 4), ('base', 8)], 'Cfg2': [('c', 'Cfg'), ('k', 16)]}
 
 class Unmodelled(Exception):
@@ -73,7 +100,12 @@ class Unmodelled(Exception):
   the property is evaluated on those real observations"""
 
 def type_width(t):
-  return t if isinstance(t, int) else sum(type_width(ft) for _, ft in STRUCTS[t])
+  if isinstance(t, int): return t
+  if isinstance(t, tuple):           # ('arr', dims, element width): the packed width is element width * PRODUCT of the dimensions
+    n = 1
+    for d in t[1]: n *= d
+    return n * t[2]
+  return sum(type_width(ft) for _, ft in STRUCTS[t])
 
 def type_paths(t, lo=0):
   """[(path, names, width, lo, struct-name-or-None)] for every attribute path of a value of type t"""
@@ -83,6 +115,7 @@ def type_paths(t, lo=0):
     off = lo + type_width(t)
     for i, (fn, ft) in enumerate(fields):
       off -= type_width(ft)
+      if isinstance(ft, tuple): out.append(((i,), (fn,), type_width(ft), off, None)); continue      # list field: opaque here
       for p, ns, w, l, st in type_paths(ft, off):
         out.append(((i,) + p, (fn,) + ns, w, l, st))
   return out
@@ -92,7 +125,8 @@ class Design:
   def __init__(s):
     s.sigs = []          # (name, ctor, type)
     s.extra = []         # further construct() lines: constants (closure / attribute), lists of constants, lists of signals
-    s.siglists = []      # (name, count, width) of InPort lists declared in s.extra (driven after the plain signals)
+    s.siglists = []      # (name, count, width | [width of every leaf, row-major]) of (nested) InPort lists declared in s.extra
+    s.force_unmodelled = False
   def add(s, ctor, t):
     name = {'InPort': 'i', 'OutPort': 'o', 'Wire': 'w'}[ctor] + str(len(s.sigs))
     s.sigs.append((name, ctor, t)); return len(s.sigs) - 1
@@ -389,9 +423,13 @@ def set_inputs(m, D, inputs):
       obj @= inputs[si]
 
   k = len(D.sigs)
+  def leaves(x):
+    if isinstance(x, list):
+      for y in x: yield from leaves(y)
+    else: yield x
   for name, cnt, w in D.siglists:
-    for j in range(cnt):
-      getattr(m, name)[j] @= inputs[k]; k += 1
+    for port in leaves(getattr(m, name)):
+      port @= inputs[k]; k += 1
 
 def read_sigs(m, D):
   return [int(getattr(m, n).to_bits()) for n, c, t in D.sigs]
@@ -725,7 +763,7 @@ def rand_inputs(rng, D):
     if c != 'InPort': out.append(0)
     else: out.append(rng.choice([0, (1 << w) - 1, rng.getrandbits(w), rng.getrandbits(w), rng.getrandbits(w)]))
   for name, cnt, w in D.siglists:
-    out += [rng.getrandbits(w) for _ in range(cnt)]
+    out += [rng.getrandbits(w if isinstance(w, int) else w[j]) for j in range(cnt)]
   return out
 
 # ------------------------------------------------------------------ correspondence
@@ -806,7 +844,8 @@ def coq_multi(ctx, name, terms, oks, shard=56, jobs=8):
 class Case:
   pass
 
-def process_block(ctx, D, ss, ff, frees, ninputs, tag, rng, feats=()):
+def process_block(ctx, D, ss, ff, frees, ninputs, tag, rng, feats=(), drive=None):
+  # drive: optional function(run number, random inputs) -> inputs, to steer index signals through every element
   """run the real passes / simulator on one block; returns a Case or None when the block is outside the modelled language"""
   c = Case()
   c.D, c.ss, c.ff, c.frees, c.tag, c.feats = D, ss, ff, frees, tag, feats
@@ -818,11 +857,12 @@ def process_block(ctx, D, ss, ff, frees, ninputs, tag, rng, feats=()):
   if c.tc[0] in ('elab', 'syntax'):
     return c
   c.nodes = stmt_nodes(D, ss)
-  try: block_coq(ss); c.modelled = True
+  try: block_coq(ss); c.modelled = not D.force_unmodelled
   except Unmodelled: c.modelled = False
   c.runs = []
-  for _ in range(ninputs):
+  for k in range(ninputs):
     ins = rand_inputs(rng, D)
+    if drive is not None: ins = drive(k, ins)
     sim = real_simulate(cls, D, ff, ins)
     pr = real_probe(cls, D, ss, frees, ins, mod)
     if (sim[0] == 'ok') != (pr[0] == 'ok') or (sim[0] == 'err' and sim[1] != pr[1]):
@@ -888,7 +928,7 @@ def check_cases(ctx, cases, section, lit_attr=None):
     ctx.count((section, c.body), True, cls=f'{section}:unmodelled:{c.tc[0]}' + (':raises' if nerr else ''))
     for f in c.feats: ctx.hist['feature:' + f] = ctx.hist.get('feature:' + f, 0) + 1
     if c.tc[0] != 'accept' or block_has_cast(c.ss): continue
-    msg = next((sim[2] for ins, sim, pr in c.runs if sim[0] == 'err' and sim[1] == 'EValue'), None)
+    msg = next((sim[2] for ins, sim, pr in c.runs if sim[0] == 'err' and (sim[1] == 'EValue' or (sim[1] == 'EAssert' and '-bit <>' in sim[2]))), None)
     if not c.tc[2]: msg = None                 # a shift amount narrower / wider than the shifted value: exempt from the no-error clause
     bad = width_vs_runtime(c)
     if msg is None and not bad: continue
@@ -899,7 +939,9 @@ def check_cases(ctx, cases, section, lit_attr=None):
     key = f'C10:{cause}:missing-check' if cause else f'C10:unmodelled:{h}'
     what = (f'accepted block: sub-expression {bad[0][0]}: {bad[0][1]}' if bad else 'the RTLIR type checker ACCEPTS this block') + \
            (f'; simulating it raises {msg[:160]}' if msg else '') + (f' [cause {cause}]' if cause else '') + f' block:{c.body[-300:]}'
-    ctx.violation(key, what, replay_of(c, {'error': msg, 'node': bad[0][0] if bad else None, 'detail': bad[0][1] if bad else None, 'cause': cause}))
+    fail_in = next((ins for ins, sim, pr in c.runs if sim[0] == 'err' and sim[2] == msg), None) if msg else (bad[0][2] if bad else None)
+    ctx.violation(key, what, replay_of(c, {'error': msg, 'node': bad[0][0] if bad else None, 'detail': bad[0][1] if bad else None, 'cause': cause,
+                                           'failing_inputs': fail_in, 'signals_in_input_order': [n for n, _, _ in c.D.sigs] + [n + '[...]' for n, _, _ in c.D.siglists]}))
   live = [c for c in live if c.modelled]
   if not live: return
   terms = [case_term(c) for c in live]
@@ -1358,6 +1400,163 @@ def loop_cases(ctx, n, ninputs):
   for c in cases[:2]:
     ctx.sample({'section': 'loops', 'block': c.body[-400:], 'checker': str(c.tc)[:200]})
 
+def nested(dims, leaf, idx=()):
+  """python source of a nested list literal of shape dims; leaf(index tuple) -> source of the element"""
+  if not dims: return leaf(idx)
+  return '[ ' + ', '.join(nested(dims[1:], leaf, idx + (j,)) for j in range(dims[0])) + ' ]'
+
+def all_indices(dims):
+  out = [()]
+  for d in dims: out = [p + (j,) for p in out for j in range(d)]
+  return out
+
+def idx_width(n): return 1 if n <= 1 else (n - 1).bit_length()
+
+class ArrayGen:
+  """bitstructs with (multi-dimensional) list fields and 2-D / 3-D arrays of signals and of constants — homogeneous, or with a different
+  bitwidth in a non-first row / plane.  None of this is in the Coq language: the blocks are type-checked by the real pass, simulated with the
+  index signals driven through EVERY element, probed, and the property is evaluated on those observations: an accepted block never raises
+  a width error; the width the checker gives a sub-expression is the width of the value computed there."""
+  def __init__(s, rng):
+    s.rng = rng
+    D = s.D = Design(); D.force_unmodelled = True
+    s.feats = set()
+    s.idxsigs = []         # (signal id, width) of the index signals, in the order they were created
+    s.bits_in = {}
+
+  def bits(s, w):
+    if w not in s.bits_in: s.bits_in[w] = s.D.add('InPort', w)
+    return ('sig', s.bits_in[w], ())
+
+  def index(s, n, const_ok=True):
+    """an index expression into a dimension of n elements: a literal or a signal of exactly the index width"""
+    r = s.rng
+    if const_ok and r.random() < 0.4: return ('lit', r.randrange(n))
+    si = s.D.add('InPort', idx_width(n)); s.idxsigs.append((si, idx_width(n)))
+    return ('sig', si, ())
+
+  def chain(s, base, dims, upto=None, const_ok=True):
+    e = base
+    for n in dims[:upto]: e = ('cidx', e, s.index(n, const_ok))
+    return e
+
+  def near(s, w):
+    """the right width most of the time, otherwise a near miss"""
+    r = s.rng
+    if r.random() < 0.5: return w
+    return max(1, w + r.choice([-8, -4, -2, -1, 1, 2, 4, 8]))
+
+  def struct_block(s):
+    r = s.rng
+    S = r.choice(['Pix', 'Vol', 'Row', 'Sq', 'Pix', 'Vol', 'Pt', 'Outer'])
+    W = type_width(S)
+    form = r.choice(['to-bits', 'from-bits', 'element', 'element', 'scalar-field', 'copy', 'row']) if S in ARR_STRUCTS else r.choice(['to-bits', 'from-bits'])
+    s.feats.add(f'struct:{S}:{form}')
+    D = s.D
+    if form == 'to-bits':
+      i = D.add('InPort', S); n = s.near(W)
+      if r.random() < 0.3 and S in ARR_STRUCTS:        # a width a wrong packing rule would compute
+        f = next(ft for _, ft in ARR_STRUCTS[S] if isinstance(ft, tuple))
+        n = W - type_width(f) + f[2] * sum(f[1])
+      o = D.add('OutPort', n)
+      return [('assign', 0, ('lsig', o, ()), ('sig', i, ()), True)]
+    if form == 'from-bits':
+      o = D.add('OutPort', S); n = s.near(W)
+      return [('assign', 0, ('lsig', o, ()), s.bits(n), True)]
+    if form == 'copy':
+      i = D.add('InPort', S); o = D.add('OutPort', S if r.random() < 0.8 else r.choice([x for x in ARR_STRUCTS if x != S]))
+      return [('assign', 0, ('lsig', o, ()), ('sig', i, ()), True)]
+    i = D.add('InPort', S)
+    fields = ARR_STRUCTS[S]
+    if form == 'scalar-field':
+      k = next(j for j, (_, ft) in enumerate(fields) if not isinstance(ft, tuple)); w = fields[k][1]
+      o = D.add('OutPort', s.near(w))
+      return [('assign', 0, ('lsig', o, ()), ('sig', i, (k,)), True)]
+    k = next(j for j, (_, ft) in enumerate(fields) if isinstance(ft, tuple)); _, dims, ew = fields[k][1]
+    if form == 'row' and len(dims) > 1:
+      e = s.chain(('sig', i, (k,)), dims, upto=len(dims) - 1)
+      o = D.add('OutPort', dims[-1] * ew)
+      return [('assign', 0, ('lsig', o, ()), e, True)]
+    e = s.chain(('sig', i, (k,)), dims)
+    o = D.add('OutPort', s.near(ew) if r.random() < 0.6 else ew)
+    if r.random() < 0.4: e = ('bin', r.choice(['Add', 'And', 'Xor']), e, s.bits(ew))
+    return [('assign', 0, ('lsig', o, ()), e, True)]
+
+  def array_block(s):
+    r = s.rng
+    D = s.D
+    dims = r.choice([(2, 2), (3, 2), (2, 3), (4, 2), (2, 2, 2), (2, 3, 2), (3, 2, 2)])
+    kind = r.choice(['inport', 'inport', 'attr-bits', 'closure-bits', 'attr-int'])
+    w0 = r.choice([3, 4, 8]); w1 = r.choice([w for w in (2, 4, 5, 8, 12) if w != w0])
+    hetero = r.random() < 0.5
+    # heterogeneous: one non-first row (or plane, or a single element not in row 0) has another bitwidth
+    if hetero:
+      level = r.randrange(len(dims) - 1) if r.random() < 0.8 else len(dims) - 1
+      pre = tuple(r.randrange(1 if j == 0 else 0, dims[j]) for j in range(level + 1))
+      if level == len(dims) - 1 and all(x == 0 for x in pre[:-1]): pre = (1,) + pre[1:]
+      odd = lambda ix: ix[:len(pre)] == pre
+    else: odd = lambda ix: False
+    wof = lambda ix: w1 if odd(ix) else w0
+    s.feats.add(f'array:{kind}:{len(dims)}d:' + ('heterogeneous' if hetero else 'homogeneous'))
+    name = {'inport': 's.arr', 'attr-bits': 's.carr', 'closure-bits': 'carr', 'attr-int': 's.iarr'}[kind]
+    if kind == 'inport':
+      D.extra.append(f'{name} = ' + nested(dims, lambda ix: f'InPort( Bits{wof(ix)} )'))
+      D.siglists.append(('arr', len(all_indices(dims)), [wof(ix) for ix in all_indices(dims)]))
+    elif kind == 'attr-int':
+      vals = {ix: (1 << (wof(ix) - 1)) | r.getrandbits(wof(ix) - 1) for ix in all_indices(dims)}
+      D.extra.append(f'{name} = ' + nested(dims, lambda ix: str(vals[ix])))
+    else:
+      vals = {ix: r.getrandbits(wof(ix)) for ix in all_indices(dims)}
+      D.extra.append(f'{name} = ' + nested(dims, lambda ix: f'Bits{wof(ix)}( {vals[ix]} )'))
+    e = s.chain(('carr', name), dims, const_ok=(r.random() < 0.5))
+    lits = []; x = e
+    while x[0] == 'cidx': lits.append(x[2]); x = x[1]
+    if kind != 'inport' and all(l[0] == 'lit' for l in lits):
+      # a constant element selected by constant indices is folded by the RTLIR generator (SizeCast(Number) / Number)
+      ix = tuple(l[1] for l in reversed(lits)); src = name + ''.join(f'[{j}]' for j in ix)
+      e = ('cint', src, vals[ix]) if kind == 'attr-int' else ('cbits', src, wof(ix), vals[ix])
+      s.feats.add('array:folded-element')
+    tw = w0 if r.random() < 0.75 else s.near(w0)
+    o = D.add('OutPort', tw)
+    q = r.random()
+    if q < 0.35: e = ('bin', r.choice(['Add', 'Sub', 'And', 'Or']), e, s.bits(w0))
+    elif q < 0.5:
+      o = D.add('OutPort', 1); e = ('cmp', r.choice(list(PYCMP)), e, s.bits(w0))
+    return [('assign', 0, ('lsig', o, ()), e, True)]
+
+  def build(s):
+    ss = s.struct_block() if s.rng.random() < 0.5 else s.array_block()
+    return ss
+
+  def drive(s):
+    """run k drives the index signals with the k-th combination (mixed radix over their value ranges)"""
+    sigs = list(s.idxsigs)
+    def f(k, ins):
+      ins = list(ins)
+      for si, w in sigs:
+        ins[si] = k % (1 << w); k //= (1 << w)
+      return ins
+    combos = 1
+    for _, w in sigs: combos *= (1 << w)
+    return f, combos
+
+def array_cases(ctx, n, maxruns):
+  cases = []
+  for i in range(n):
+    g = ArrayGen(ctx.rng)
+    ss = g.build()
+    f, combos = g.drive()
+    cases.append(process_block(ctx, g.D, ss, False, [], max(2, min(combos, maxruns)), f'arrays:{i}', ctx.rng, feats=sorted(g.feats), drive=f))
+  check_cases(ctx, cases, 'arrays')
+  v = {}
+  for c in cases:
+    for f in c.feats:
+      if f.startswith('array:') and f.count(':') >= 3:
+        k = f.split(':')[-1] + ':' + c.tc[0]; v[k] = v.get(k, 0) + 1
+  ctx.extra['arrays_verdicts'] = v
+  for c in cases[:2]:
+    ctx.sample({'section': 'arrays', 'block': c.body[-500:], 'checker': str(c.tc)[:200], 'simulation': str(c.runs[0][1])[:160] if c.tc[0] not in ('elab', 'syntax') else None})
+
 def random_cases(ctx, n, ninputs):
   cases = []
   for i in range(n):
@@ -1377,13 +1576,14 @@ def run(ctx):
   directed_cases(ctx)
   constant_cases(ctx, 160 if quick else 1000, 4 if quick else 6)
   loop_cases(ctx, 70 if quick else 600, 2 if quick else 4)
-  random_cases(ctx, 400 if quick else 2200, 6 if quick else 8)
+  array_cases(ctx, 100 if quick else 800, 8 if quick else 16)
+  random_cases(ctx, 330 if quick else 2200, 6 if quick else 8)
 
 def main(ctx):
   ctx.trusted += ['harness/c10.py prints the same block as Python source and as a Coq term (cross-checked on every block: the number and order of RTLIR nodes of the real tree must match the term)',
                   'Bits/BitsSpec.v and Bits/Helpers.v as the meaning of Bits operators (proved equal to the generated model of PythonBits.py in C04/C05)']
   ctx.assumptions += [
-    'language modelled: signals of Bits / nested bitstruct type, int literals, BitsN(k), closure ints, + - * & | ^ << >>, comparisons, ~, slices (constant or x:x+k), bit index, concat, zext/sext/trunc (int width form), reduce_*, BitsN(e), IfExp, temporaries, constant-bounded for loops, @= / <<= (whole vector or bitstruct signals), if/else. Not modelled in Coq: / % ** unary -, signal lists, signal-indexed constant lists and their fields, closure Bits variables, struct instantiation, struct<->vector assignment, interfaces, sub-components, negative literals; blocks of the constants section that use them are evaluated against the property on the real observations only (coverage.unmodelled_blocks_property_evaluated).',
+    'language modelled: signals of Bits / nested bitstruct type, int literals, BitsN(k), closure ints, + - * & | ^ << >>, comparisons, ~, slices (constant or x:x+k), bit index, concat, zext/sext/trunc (int width form), reduce_*, BitsN(e), IfExp, temporaries, constant-bounded for loops, @= / <<= (whole vector or bitstruct signals), if/else. Not modelled in Coq: / % ** unary -, signal lists / arrays, bitstructs with list fields, struct<->vector assignment, signal-indexed constant lists and their fields, closure Bits variables, struct instantiation, struct<->vector assignment, interfaces, sub-components, negative literals; blocks of the constants section that use them are evaluated against the property on the real observations only (coverage.unmodelled_blocks_property_evaluated).',
     'generated blocks read only InPorts/temporaries and write only OutPorts/Wires (no aliasing between a temporary and a signal written later)',
     'tc_sound is proved for `tc strict` = the model of the code plus checks S1..S13 (Typing.v); tc_mono proves strict is a restriction of impl; for the code as it is the statement is false (machine-checked counterexamples; the harness finds them on the real code)',
     'soundness is proved for expressions, sub-expressions, assignments and whole blocks with nested if/else, constant-bounded for loops and temporaries (C10_block_sound); the anti-monotonicity strict => impl is proved for expressions and assignments and evaluated per block (ok_mono) for if/for',
@@ -1396,6 +1596,6 @@ def main(ctx):
   except Exception as e:
     ctx.note('correspondence crashed: ' + traceback.format_exc()[-1500:])
     ctx.violation('C10:harness-crash', f'correspondence could not run: {e!r}', {'traceback': traceback.format_exc()}, found_input=False)
-  return ctx.finish(rule='(1) literals 2^k-1,2^k,2^k+1 (k<=70/80) as a Number node, as a loop bound and against a k-bit signal; (2) 30 fixed blocks, one per checker rule / missing check; (2c) 70/600 blocks of 2-3 nested for loops whose slices / indices mix loop variables, offsets, scales and constants on the read and the written side (accepted x[e:e+K] forms and the near misses the checker must reject) + 16 fixed ones; (2b) 160/1000 blocks over free-variable constants (ints, Bits, bitstructs, lists of them with constant and signal index, fields, signal lists) against signals of equal / different width; '
+  return ctx.finish(rule='(1) literals 2^k-1,2^k,2^k+1 (k<=70/80) as a Number node, as a loop bound and against a k-bit signal; (2) 30 fixed blocks, one per checker rule / missing check; (2d) 100/800 blocks over bitstructs with multi-dimensional list fields (struct <-> BitsN, element reads) and 2-D/3-D arrays of signals / constants, homogeneous and heterogeneous, index signals driven through every element; (2c) 70/600 blocks of 2-3 nested for loops whose slices / indices mix loop variables, offsets, scales and constants on the read and the written side (accepted x[e:e+K] forms and the near misses the checker must reject) + 16 fixed ones; (2b) 160/1000 blocks over free-variable constants (ints, Bits, bitstructs, lists of them with constant and signal index, fields, signal lists) against signals of equal / different width; '
                          '(3) random type-directed update blocks (1-4 statements, depth<=3, 2-4 inputs and 2-4 outputs of Bits/bitstruct type, wildness 0-25%) each run on 6-8 random inputs; '
                          'distinct = distinct block texts; all non-trivial (every block is type-checked by the real passes, simulated and probed)')
